@@ -149,7 +149,8 @@ def run(tier, replay=None):
     # ---- part 2: generated programs, explicitly enabled, normal vs -O vs -OO
     n = 0
     mode_diffs = []
-    if not (replay and "row" in json.load(open(replay))):
+    rp2 = json.load(open(replay)) if replay else {}
+    if not (replay and ("row" in rp2 or "ops" in rp2.get("case", {}) or "tree" in rp2.get("case", {}))):
         if replay:
             cases = [json.load(open(replay))["case"]]
         else:
@@ -205,6 +206,32 @@ def run(tier, replay=None):
         gen_elab.EXPLICIT_ENABLED = False
         mode_diffs += elab_diffs
 
+    # ---- part 4: conditions over the expression language, violated, enabled=True spelled out: the same violation
+    # message (every line of it) and the same outcome in every interpreter mode
+    nexpr = 0
+    if not replay or "tree" in rp3.get("case", {}):
+        import expr_cluster as XC
+        import gen_expr
+        xcases = [rp3["case"]] if replay else gen_expr.gen_many(rng, 300 if tier == "quick" else 6000,
+                                                                 depth=4 if tier == "quick" else 5)
+        nexpr = len(xcases)
+        KEYS = ("outcome", "lines", "recorded", "text_ok", "harness_error")
+
+        def view(o):
+            return {k: o.get(k) for k in KEYS}
+        ref4 = [view(o) for o in XC.observe(xcases, force_enabled=True)]
+        expr_diffs = []
+        for name, flags in (("-O, enabled=True spelled out", ("-O",)), ("-OO, enabled=True spelled out", ("-OO",))):
+            for c, a, o in zip(xcases, ref4, XC.observe(xcases, pyflags=flags, force_enabled=True)):
+                if a != view(o):
+                    expr_diffs.append((name, c, a, view(o)))
+        for name, c, a, b in expr_diffs[:2]:
+            out.violation("an explicitly enabled condition is reported differently under %s" % name,
+                          {"case": c, "observation_normal": a, "observation": b, "configuration": name,
+                           "how": "./check C15 --replay <this file>"})
+        mode_diffs += expr_diffs
+        dist["conditions/violated"] = sum(1 for o in ref4 if o.get("lines"))
+
     if problems and not out.violations:
         out.violation("; ".join(problems), {"no_longer_checks": problems}, found_input=False)
     cov = out.coverage
@@ -218,6 +245,7 @@ def run(tier, replay=None):
         "rows_per_configuration": len(rows),
         "programs_rerun_in_each_mode": n,
         "definition_histories_rerun_in_each_mode": nelab,
+        "conditions_rerun_in_each_mode": nexpr,
         "spec_failures_on_implementation": len(spec_fail) + len(flag_fail) + len(cross) + len(mode_diffs),
         "distribution": dict(dist.most_common(60)),
         "samples": [{"mode": m[0], "env": e[0], "row": row, "observation": o} for m, e, row, o in index[:2] + index[-1:]],
